@@ -1,10 +1,10 @@
 package main
 
 import (
-	"regexp"
 	"fmt"
 	"os"
 	"path/filepath"
+	"regexp"
 	"strconv"
 	"strings"
 
